@@ -5,6 +5,8 @@
 import Gts.Lemmas.Embed
 import Gts.Lemmas.Delete
 import Gts.Model.Seq
+import Gts.Lemmas.Window
+import Gts.Lemmas.Guest
 namespace Gts.C10
 open Gts Loc
 
@@ -181,6 +183,49 @@ theorem concat_pieces_bytes (bs : List UInt8) :
       rw [ih]
       have : bs.drop b = (bs.drop a).drop (b - a) := by rw [List.drop_drop]; congr 1; omega
       rw [this, List.take_append_drop]
+
+/-- **a piece of a feature, put back by Concat**: the part of a feature that falls into the piece
+`[a, b)`, offset back by `a` as `Concat` does, denotes exactly the feature's residues inside
+`[a, b)` — at their original positions and on their original strand. -/
+theorem piece_den_partial (l : Loc) (a b L : Int) (h0 : 0 ≤ a) (hab : a ≤ b) (hbL : b ≤ L)
+    (hw : wf l = true) (hpos : ∀ p ∈ den l, 0 ≤ p.1 ∧ p.1 < L)
+    (g1 : expandAbs l b (b - L) = false) (g2 : expandAbs (l.expand b (b - L)) 0 (-a) = false)
+    (hnn : nonneg (sliceLoc l a b L) = true) (g3 : expandAbs (sliceLoc l a b L) 0 a = false) :
+    den (expand (sliceLoc l a b L) 0 a) ≼ (den l).filter (fun p => decide (a ≤ p.1 ∧ p.1 < b)) := by
+  have s := sliceLoc_den l a b L h0 hab hbL hw hpos g1 g2
+  have t := guest_translate (sliceLoc l a b L) a s.2 hnn h0 g3
+  have u := mapPos_refines (· + a) s.1
+  have e : mapPos (· + a) (filterMapPos (winMap a b) (den l))
+      = (den l).filter (fun p => decide (a ≤ p.1 ∧ p.1 < b)) := by
+    generalize den l = d
+    induction d with
+    | nil => rfl
+    | cons p ps ih =>
+      simp only [filterMapPos, mapPos, List.filterMap_cons, List.filter_cons, winMap] at ih ⊢
+      by_cases c : a ≤ p.1 ∧ p.1 < b
+      · simp only [c, and_self, if_true, Option.map_some, decide_true, List.map_cons]
+        rw [ih]
+        congr 1
+        apply Prod.ext
+        · simp only; omega
+        · rfl
+      · simp only [c, if_false, Option.map_none, decide_false]
+        exact ih
+  rw [e] at u
+  exact t.trans u
+
+/-- the windows between consecutive cuts partition the positions: every residue of the feature
+falls into exactly one piece (so the pieces together denote exactly the original residues) -/
+theorem windows_partition (cuts : List Int) (a L x : Int)
+    (hs : (a :: cuts).Pairwise (· < ·)) (hl : (a :: cuts).getLast? = some L) (h0 : a ≤ x) (h1 : x < L) :
+    ∃ w ∈ (a :: cuts).zip cuts, w.1 ≤ x ∧ x < w.2 := by
+  induction cuts generalizing a with
+  | nil => simp at hl; omega
+  | cons b cuts ih =>
+    by_cases hx : x < b
+    · exact ⟨(a, b), by simp, h0, hx⟩
+    · obtain ⟨w, hw, hw2⟩ := ih b (List.Pairwise.of_cons hs) (by simpa using hl) (by omega)
+      exact ⟨w, by simp only [List.zip_cons_cons, List.mem_cons]; exact Or.inr hw, hw2⟩
 
 /-- non-vacuity -/
 example : wf (joined [ranged 2 5 true false, ranged 7 9 false true]) = true ∧
